@@ -138,11 +138,12 @@ def _outer(a, b):
     return a.reshape((-1, 1)) * b.reshape((1, -1))
 
 
-def h_pca_all(B, n=4, p=2, q=2, alpha=1.0, cplx=False):
+def h_pca_all(B, n=4, p=2, q=2, alpha=1.0, cplx=False, hilbert=False):
     X, Y = da2d(B, "x", n, p, cplx, feat="x"), da2d(B, "y", n, q, cplx, feat="y")
-    cls = "ComplexCPCCA" if cplx else "CPCCA"
-    m1 = M.cross(cls, n_modes=2, alpha=alpha, use_pca=False).fit(X, Y, "time")
-    m2 = M.cross(cls, n_modes=2, alpha=alpha, use_pca=True, n_pca_modes="all").fit(X, Y, "time")
+    cls = "HilbertCPCCA" if hilbert else ("ComplexCPCCA" if cplx else "CPCCA")
+    kw = {"padding": "none"} if hilbert else {}
+    m1 = M.cross(cls, n_modes=2, alpha=alpha, use_pca=False, **kw).fit(X, Y, "time")
+    m2 = M.cross(cls, n_modes=2, alpha=alpha, use_pca=True, n_pca_modes="all", **kw).fit(X, Y, "time")
     B.covers("PCA pre-reduction keeping all modes")
     B.eq("PCA(all modes) == no PCA: singular values", m2.data["singular_values"], m1.data["singular_values"])
     # patterns up to the sign / phase of each mode: compare the projectors c c^H
@@ -171,6 +172,8 @@ def configs(tier):
     add("h_mca_self", "MCA(X,X) vs EOF(X)")
     add("h_mca_self", "MCA(X,X) vs EOF(X)|n4p3", n=4, p=3)
     add("h_pca_all", "PCA all modes vs no PCA|complex|alpha=1 (decided at witnesses only)", cplx=True)
+    # the Hilbert variants transform the PC scores AFTER the PCA step: whitening then acts on correlated columns
+    add("h_pca_all", "PCA all modes vs no PCA|Hilbert|alpha=0|n6 (decided at witnesses only)", hilbert=True, alpha=0.0, n=6)  # n=6: with n=4 the canonical correlations are all 1 (p+q >= n-1) and the patterns are not unique
     if tier == "thorough":
         add("h_pca_all", "PCA all modes vs no PCA|alpha=1")
         add("h_pca_all", "PCA all modes vs no PCA|alpha=0.5", alpha=0.5)
